@@ -199,6 +199,9 @@ func httpParts(c *Case) (method, path string, hdr http.Header, body []byte) {
 		hdr.Set("Content-Type", "text/plain")
 		hdr.Set("Accept", "application/json")
 	}
+	if c.AcceptGzip {
+		hdr.Set("Accept-Encoding", "gzip")
+	}
 	if method == "GET" {
 		return method, path, hdr, nil
 	}
